@@ -53,7 +53,9 @@ func setup() {
 	buildEnvs()
 }
 
-func uid(t, id string) types.EntityUID { return types.NewEntityUID(types.EntityType(t), types.String(id)) }
+func uid(t, id string) types.EntityUID {
+	return types.NewEntityUID(types.EntityType(t), types.String(id))
+}
 
 func mustDec(s string) types.Value { d, _ := types.ParseDecimal(s); return d }
 func mustIP(s string) types.Value  { d, _ := types.ParseIPAddr(s); return d }
@@ -220,15 +222,21 @@ type scope struct {
 
 var scopes = []scope{
 	{"all", func() *xast.Policy { return xast.Permit() }},
-	{"user-view-doc", func() *xast.Policy { return xast.Permit().PrincipalIs("User").ActionEq(uid("Action", "view")).ResourceIs("Doc") }},
-	{"group-edit-folder", func() *xast.Policy { return xast.Forbid().PrincipalIs("Group").ActionEq(uid("Action", "edit")).ResourceIs("Folder") }},
+	{"user-view-doc", func() *xast.Policy {
+		return xast.Permit().PrincipalIs("User").ActionEq(uid("Action", "view")).ResourceIs("Doc")
+	}},
+	{"group-edit-folder", func() *xast.Policy {
+		return xast.Forbid().PrincipalIs("Group").ActionEq(uid("Action", "edit")).ResourceIs("Folder")
+	}},
 	{"in-in-in", func() *xast.Policy {
 		return xast.Permit().PrincipalIn(uid("Group", "g1")).ActionIn(uid("Action", "readWrite")).ResourceIn(uid("Folder", "f1"))
 	}},
 	{"eq-inset-eq", func() *xast.Policy {
 		return xast.Permit().PrincipalEq(uid("User", "u1")).ActionInSet(uid("Action", "view"), uid("Action", "admin")).ResourceEq(uid("Doc", "d1"))
 	}},
-	{"user-admin", func() *xast.Policy { return xast.Permit().PrincipalIsIn("User", uid("Group", "g1")).ActionEq(uid("Action", "admin")) }},
+	{"user-admin", func() *xast.Policy {
+		return xast.Permit().PrincipalIsIn("User", uid("Group", "g1")).ActionEq(uid("Action", "admin"))
+	}},
 }
 
 func path(root string, attrs ...string) *Expr {
@@ -455,12 +463,22 @@ func tagGuards() *core.Family {
 		name string
 		f    func(e1, k1, e2, k2 *Expr) *Expr
 	}{
-		{"hasTag&&getTag", func(e1, k1, e2, k2 *Expr) *Expr { return Bin(OAnd, Bin(OHasTag, e1, k1), Bin(OEq, Bin(OGetTag, e2, k2), L(Long(1)))) }},
-		{"hasTag&&getTag-string", func(e1, k1, e2, k2 *Expr) *Expr { return Bin(OAnd, Bin(OHasTag, e1, k1), Bin(OEq, Bin(OGetTag, e2, k2), L(Str("v")))) }},
+		{"hasTag&&getTag", func(e1, k1, e2, k2 *Expr) *Expr {
+			return Bin(OAnd, Bin(OHasTag, e1, k1), Bin(OEq, Bin(OGetTag, e2, k2), L(Long(1))))
+		}},
+		{"hasTag&&getTag-string", func(e1, k1, e2, k2 *Expr) *Expr {
+			return Bin(OAnd, Bin(OHasTag, e1, k1), Bin(OEq, Bin(OGetTag, e2, k2), L(Str("v"))))
+		}},
 		{"getTag-unguarded", func(e1, k1, e2, k2 *Expr) *Expr { return Bin(OEq, Bin(OGetTag, e2, k2), L(Long(1))) }},
-		{"!hasTag||getTag", func(e1, k1, e2, k2 *Expr) *Expr { return Bin(OOr, Un(ONot, Bin(OHasTag, e1, k1)), Bin(OLt, Bin(OGetTag, e2, k2), L(Long(1)))) }},
-		{"hasTag||getTag", func(e1, k1, e2, k2 *Expr) *Expr { return Bin(OOr, Bin(OHasTag, e1, k1), Bin(OLt, Bin(OGetTag, e2, k2), L(Long(1)))) }},
-		{"if-hasTag-getTag", func(e1, k1, e2, k2 *Expr) *Expr { return If(Bin(OHasTag, e1, k1), Bin(OEq, Bin(OAdd, Bin(OGetTag, e2, k2), L(Long(1))), L(Long(2))), L(Bool(false))) }},
+		{"!hasTag||getTag", func(e1, k1, e2, k2 *Expr) *Expr {
+			return Bin(OOr, Un(ONot, Bin(OHasTag, e1, k1)), Bin(OLt, Bin(OGetTag, e2, k2), L(Long(1))))
+		}},
+		{"hasTag||getTag", func(e1, k1, e2, k2 *Expr) *Expr {
+			return Bin(OOr, Bin(OHasTag, e1, k1), Bin(OLt, Bin(OGetTag, e2, k2), L(Long(1))))
+		}},
+		{"if-hasTag-getTag", func(e1, k1, e2, k2 *Expr) *Expr {
+			return If(Bin(OHasTag, e1, k1), Bin(OEq, Bin(OAdd, Bin(OGetTag, e2, k2), L(Long(1))), L(Long(2))), L(Bool(false)))
+		}},
 	}
 	n := len(forms) * len(ents) * len(keys) * len(ents) * len(keys)
 	return &core.Family{
